@@ -445,8 +445,6 @@ def scan_monitor(sim: Sim, res: CaseResult, when: str, phase: str):
 
 def check_not_on(sim: Sim, res: CaseResult, when: str, phase: str, comp: List[str]):
     """Everything the property says about a node that is not ON. `phase` tells how it got there (structural key)."""
-    from ipaddress import IPv4Address
-
     state = sim.state()
     w = f"{when} [{sim.kind} {state} via {phase}]"
     # 1. interfaces
@@ -672,6 +670,7 @@ def run_case(case: Dict) -> CaseResult:
             model.resync(obs)
         if T_done:
             name_, T = T_done
+            res.label(f"timed:{name_}" + (":autostart" if name_ == "shutdown" and obs != OFF else ""))
             base = baseline_T(kind, "down" if name_ == "shutdown" else "up", dd if name_ == "shutdown" else du)
             if base is not None and T != base:
                 res.violate(f"timing-interference:{name_}", f"{when}: {name_} took {T} ticks here, {base} in an undisturbed run")
